@@ -186,6 +186,65 @@ def obligations():
     return _c17_obl() + [Ob('O17.2-dyn-coercion-dep-trait', 'a value is coerced to dyn Tr (trait of a dependency) iff an implementation for its type is visible', ob_dyn_coercion, ('quick', 'thorough'), 3, dict(trait_in='Lib')),
                          Ob('O17.2-dyn-coercion-own-trait', 'a value is coerced to dyn Tr (trait of the current package) iff an implementation for its type is visible', ob_dyn_coercion, ('quick', 'thorough'), 3, dict(trait_in='Main'))]
 
+# ----------------------------------------------------------------------------- O17.3 x.m(a): the method of a receiver is looked up where its type is declared
+def replay_receiver_env(kind):
+    d = tempfile.mkdtemp(prefix='vf-c17-')
+    try:
+        os.makedirs(os.path.join(d, 'Lib'))
+        lib = 'package Lib\n\nstruct Box[T] { v: T }\nimpl[T] Box[T] { fn get(self: Box[T]) -> T { self.v } }\nstruct A { v: int32 }\nimpl A { fn val(self: A) -> int32 { self.v } }\n'
+        call = {'app': 'let b: Lib::Box[int32] = Lib::Box { v: 1 }; let x = b.get(); let y = Lib::Box::get(b);', 'struct': 'let a: Lib::A = Lib::A { v: 1 }; let x = a.val(); let y = Lib::A::val(a);'}[kind]
+        main = 'package Main\nimport Lib\n\nfn main() -> unit { %s string_println(int32_to_string(x + y)) }\n' % call
+        open(os.path.join(d, 'Lib', 'lib.gom'), 'w').write(lib); open(os.path.join(d, 'main.gom'), 'w').write(main)
+        p = subprocess.run([build.compiler_bin(), 'run', '--dump-go', os.path.join(d, 'main.gom')], capture_output=True, text=True, timeout=60)
+    finally: shutil.rmtree(d, ignore_errors=True)
+    out = p.stdout + p.stderr; rejected = 'error' in out.split('== Go ==')[0]
+    if rejected and 'error (typer)' not in out: raise Unsupported('replay project rejected outside the typer: ' + out.strip()[:200])
+    return rejected, 'project Lib { %s } / Main { %s }: %s' % (lib.replace('\n', ' | ')[:300], main.replace('\n', ' | ')[:300], ('rejected: ' + out.strip().split('\n')[0][:160]) if rejected else 'both call forms accepted')
+
+def ob_receiver_env(r, tier, seed):
+    W = e2.fresh_world(CRATES); E = Env(W)
+    SD = W.tt.find_adt(['env', 'StructDef'], 'compiler'); TEV = W.tt.find_adt(['env', 'TypeEnv'], 'compiler')
+    r.bounds = 'package Main importing Lib; receiver types: struct / enum named A or Lib::A, applications Box[t] / Lib::Box[t] / Opt[t] / Lib::Opt[t] with t in {int32, A, Lib::A}, int32, Ref[Lib::A], Vec[Lib::A]'
+    r.assumptions = ['oracle: env_for_receiver_ty returns the environment of the package that declares the head constructor of the receiver type (the inherent methods of a type are registered there); the argument types of an application do not matter; built-in and structural types live in the current package']
+    def entry(ex):
+        cur = ex.call('env::GlobalTypeEnv::new_empty', []); dep = ex.call('env::GlobalTypeEnv::new_empty', [])
+        # make the two environments distinguishable by content
+        st = E.field(TEV, E.field(E.GE, cur, 'type_env'), 'structs'); st.keys.append(Agg(E.TI.key, 0, [mkstr('MarkCur')])); st.vals.append(Opaque('def'))
+        st2 = E.field(TEV, E.field(E.GE, dep, 'type_env'), 'structs'); st2.keys.append(Agg(E.TI.key, 0, [mkstr('MarkDep')])); st2.vals.append(Opaque('def'))
+        deps = PyMap('hash'); deps.keys.append(mkstr('Lib')); deps.vals.append(dep)
+        penv = Agg(E.PE.key, 0, [{'package': mkstr('Main'), 'current': cur, 'deps': deps}[f[0]] for f in E.PE.variants[0].fields])
+        head = ex.choose([(True, x) for x in ('A', 'Lib::A', 'Box', 'Lib::Box', 'Opt', 'Lib::Opt', 'int32', 'ref', 'vec')])
+        arg = ex.choose([(True, x) for x in ('int32', 'A', 'Lib::A')]) if head in ('Box', 'Lib::Box', 'Opt', 'Lib::Opt') else None
+        if head in ('A', 'Lib::A'):
+            kind = ex.choose([(True, 'TStruct'), (True, 'TEnum')]); t = E.T(kind, mkstr(head))
+        elif head == 'int32': t = E.T('TInt32')
+        elif head == 'ref': t = E.T('TRef', mkbox(E.recv('Lib::A')))
+        elif head == 'vec': t = E.T('TVec', mkbox(E.recv('Lib::A')))
+        else: t = E.T('TApp', mkbox(E.T('TStruct' if 'Box' in head else 'TEnum', mkstr(head))), PyVec([E.recv(arg)]))
+        h = {0: penv, 1: t}
+        res = ex.call('typer::check::env_for_receiver_ty', [Ref(h, 0), Ref(h, 1)])
+        env = ex.deref(res)
+        names = [ms.pystr(k.fields[0]) for k in E.field(TEV, E.field(E.GE, env, 'type_env'), 'structs').keys]
+        return head, arg, 'dep' if 'MarkDep' in names else 'cur' if 'MarkCur' in names else '?'
+    res = e2.explore(r, W, entry, [])
+    for p in res:
+        r.cases += 1
+        if p.kind != 'ok':
+            if not any(f.key == 'panic' for f in r.findings): r.findings.append(Finding('panic', 'env_for_receiver_ty panics: %s' % str(p.value)[:200], {}, False, 'not replayed'))
+            continue
+        head, arg, got = p.value; want = 'dep' if head.startswith('Lib::') else 'cur'; r.nontrivial += 1
+        if got != want:
+            key = 'receiver-looked-up-in-wrong-package:' + ('app' if arg else 'nominal')
+            if any(f.key == key for f in r.findings): continue
+            try: ok_, detail = replay_receiver_env('app' if arg else 'struct') if want == 'dep' else (True, 'environment returned by the real env_for_receiver_ty MIR')
+            except Exception as e_: ok_, detail = False, 'replay failed: %s' % str(e_)[:200]
+            r.findings.append(Finding(key, 'a receiver of type %s%s: its methods are looked up in the %s package, its type is declared in the %s package' % (head, '[%s]' % arg if arg else '', {'cur': 'current', 'dep': 'imported', '?': 'unknown'}[got], {'cur': 'current', 'dep': 'imported'}[want]), {'head': head, 'arg': arg}, ok_, detail))
+        elif len(r.samples) < 3 and want == 'dep': r.samples.append({'receiver': head + ('[%s]' % arg if arg else ''), 'environment': got})
+
+_c17_obl2 = obligations
+def obligations():
+    return _c17_obl2() + [Ob('O17.3-receiver-environment', 'the inherent methods of a receiver are looked up in the package that declares its type (dot calls on imported types, incl. generic instances)', ob_receiver_env, ('quick', 'thorough'), 2, {})]
+
 META = {
     'level': 'other',
     'explanation': 'Bounded facets of C17 decided on the real code. O17.1: Typer::solve (MIR of the current tree, with resolve_type_name, PackageTypeEnv / TraitEnv::get_trait_impl, inst_ty, unify) is run on one Overloaded constraint against real environments of the current package and one dependency whose sets of trait implementations are solver decisions; the result type the call site receives identifies the implementation selected.',
